@@ -76,3 +76,36 @@ Proof.
   split; [simpl; auto|].
   split; intros H; simpl in H; repeat (destruct H as [H|H]; [discriminate|]); exact H.
 Qed.
+
+(* ---- a bracket handed to another thread ----
+   Which thread opens or closes a bracket is irrelevant: re-labelling the thread of any bracket step leaves the whole
+   execution unchanged. A scoped transaction opened by one thread and closed by the other (the opener waiting
+   meanwhile) therefore behaves exactly like the same transaction run by one thread. *)
+Definition relabel_bracket (flip : bool) (bt : bool * tstep) : bool * tstep :=
+  match snd bt with
+  | TBegin | TEnd => (xorb flip (fst bt), snd bt)
+  | TSend _ => bt
+  end.
+
+Lemma op_of_relabel flip bt :
+  op_of (fst (relabel_bracket flip bt)) (snd (relabel_bracket flip bt)) = op_of (fst bt) (snd bt).
+Proof. destruct bt as [b t]; destruct t; reflexivity. Qed.
+
+Lemma run_schedule_relabel (flips : list bool) (s : schedule) :
+  length flips = length s ->
+  run_schedule (map (fun p => relabel_bracket (fst p) (snd p)) (combine flips s)) = run_schedule s.
+Proof.
+  intros Hlen. unfold run_schedule.
+  assert (E : map (fun bt => op_of (fst bt) (snd bt))
+                  (map (fun p => relabel_bracket (fst p) (snd p)) (combine flips s))
+              = map (fun bt => op_of (fst bt) (snd bt)) s).
+  { revert s Hlen. induction flips as [|f fs IH]; intros [|bt s] Hlen; simpl in *; try discriminate; auto.
+    rewrite op_of_relabel. f_equal. apply IH. congruence. }
+  rewrite E. reflexivity.
+Qed.
+
+(* the witness the schedule replay uses: thread A opens, A sends, thread B closes *)
+Definition handoff : schedule := [(false, TBegin); (false, TSend 7); (true, TEnd)].
+Lemma handoff_calls :
+  run_schedule handoff = Some [[]; []; [BCall 0 (VInt 7); BCall 1 (VInt 7)]].
+Proof. vm_compute. reflexivity. Qed.
